@@ -565,6 +565,7 @@ type LetDef struct {
 }
 
 type PureDef struct {
+	Rec    bool
 	Name   string
 	Params []QVar
 	Ret    string
@@ -830,6 +831,11 @@ func (db *SpecDB) parseContractText(file, pkgPath, text string) error {
 				return fmt.Errorf("%s:%d: bad %s", file, l.ln, word)
 			}
 			name := strings.TrimSpace(rest[:i])
+			isRec := false
+			if strings.HasPrefix(name, "rec ") {
+				isRec = true
+				name = strings.TrimSpace(name[4:])
+			}
 			depth, j := 0, i
 			for ; j < len(rest); j++ {
 				if rest[j] == '(' {
@@ -847,7 +853,7 @@ func (db *SpecDB) parseContractText(file, pkgPath, text string) error {
 				return fmt.Errorf("%s:%d: %v", file, l.ln, err)
 			}
 			after := strings.TrimSpace(rest[j+1:])
-			pd := &PureDef{Name: name, Params: params, Pkg: pkgPath, Src: l.s}
+			pd := &PureDef{Name: name, Params: params, Pkg: pkgPath, Src: l.s, Rec: isRec}
 			if word == "pure" {
 				k := strings.Index(after, "=")
 				if k < 0 {
